@@ -2,6 +2,7 @@
 """Assemble MANIFEST.json from the MANIFEST dict of every tools/props/cXX.py."""
 import json, os, sys, importlib
 sys.path.insert(0, os.path.dirname(os.path.abspath(__file__)))
+sys.path.insert(1, os.path.join(os.path.dirname(os.path.abspath(__file__)), 'props'))
 V = '/verif'
 props = [json.loads(l) for l in open(V + '/properties.jsonl')]
 checks, na = [], []
